@@ -134,7 +134,10 @@ def check_twin(ctx, d, suite, key, pub, case, secrets, fresh=True):
     magic, dea = outcome(dearmor, str(pub))[1] if outcome(dearmor, str(pub))[0] == 'ok' else ('?', b'')
     if magic != 'PUBLIC KEY BLOCK' or dea != raw:
         ctx.fail(suite, 'armored export is not a PUBLIC KEY BLOCK around the binary export', dict(case, magic=magic))
-    ctx.case(suite, (case.get('key'), case.get('stage'), hashlib.sha1(raw).hexdigest()), sample={'key': case.get('key'), 'stage': case.get('stage'), 'tags': [t for t, b in split_packets(raw)]})
+    sp = outcome(split_packets, raw)
+    ctx.case(suite, (case.get('key'), case.get('stage'), hashlib.sha1(raw).hexdigest()), sample={'key': case.get('key'), 'stage': case.get('stage'), 'tags': [t for t, b in sp[1]] if sp[0] == 'ok' else '?'})
+    if sp[0] != 'ok':
+        ctx.fail(suite, 'export of the public twin is not a well-formed packet sequence', dict(case, impl=repr(sp)[:200])); return
     # --- tags, through the model's packet splitter and through the Python one
     r = d.call('packets', hx(raw))
     if r == 'ERR':
@@ -301,11 +304,34 @@ def grow(ctx, pgpy, key, other, stage, t):
     elif stage == 'enc-subkey':
         nsk = pgpy.PGPKey.new(A.ECDH, C.Curve25519, created=t)
         key.add_subkey(nsk, usage={F.EncryptCommunications, F.EncryptStorage}, created=t)
+    elif stage == 'direct-third-party':
+        # a certification made by ANOTHER key directly on this key (signature type 0x1F)
+        key |= other.certify(key, created=t)
+    elif stage == 'revoker-revokes':
+        # this key appoints `other` as designated revoker, and `other` revokes it
+        key |= key.revoker(other, created=t)
+        key |= other.revoke(key, created=t)
+    elif stage == 'attr-multi':
+        # a user attribute holding two image subpackets and one of an unknown (private-use) type, as read from the wire
+        from pgpy.packet import Packet
+        u = pgpy.PGPUID.new(JPEG)
+        u2 = pgpy.PGPUID.new(bytearray(JPEG[:11] + bytes(range(64, 112))))
+        raw = bytes(u._uid.subpackets.__bytearray__()) + bytes(u2._uid.subpackets.__bytearray__()) + bytes([6, 100]) + b'c07xx'
+        n = len(raw)
+        u._uid = Packet(bytearray(b'\xd1' + (bytes([n]) if n < 192 else bytes([192 + ((n - 192) >> 8), (n - 192) & 0xff])) + raw))
+        key.add_uid(u, created=t)
+    elif stage == 'legacy-uid':
+        # a user id whose octets are not UTF-8 (legacy charset), as an older implementation wrote them
+        u = pgpy.PGPUID.new('Caf\xe9 Owner %d' % t.day, email='legacy%d@example.com' % t.day)
+        u._uid._encoding_fallback = True
+        u._uid.update_hlen()
+        key.add_uid(u, usage={F.Sign}, created=t)
     else:
         raise ValueError(stage)
 
 
 STAGES = ['uid', 'attr', 'local-cert', 'third-party', 'revoke-uid', 'subkey', 'enc-subkey', 'revoke-sub', 'revoke-key']
+STAGES2 = ['direct-third-party', 'revoker-revokes', 'attr-multi', 'legacy-uid']     # shapes other implementations produce
 
 
 def old_format(data):
@@ -539,6 +565,12 @@ def run(ctx):
                               [(n, [rng.choice(STAGES) for _ in range(2)], True) for n in ('ed25519', 'ed25519b', 'p256', 'p384', 'p521', 'secp256k1')]):
             if n in names:
                 history(ctx, d, pgpy, n, plan, prot, kdf=True)
+        # shapes PGPy's own key management never produces but other implementations do (and PGPy must carry over to the twin)
+        for n, plan, prot in ([('ed25519', STAGES2 + ['uid'], True), ('rsa2048', ['legacy-uid', 'direct-third-party'], False),
+                               ('p256', ['attr-multi', 'revoker-revokes'], False)] if q else
+                              [(n, rng.sample(STAGES2, len(STAGES2)) + [rng.choice(STAGES) for _ in range(2)], rng.random() < .5) for n in names]):
+            if n in names:
+                history(ctx, d, pgpy, n, plan, prot)
         for n in (['ed25519', 'rsa1024', 'p256'] if q else names):
             if n in names:
                 suite_actions(ctx, d, pgpy, n)
@@ -588,7 +620,7 @@ def replay(ctx, case):
                 key = variant_key(pgpy, name)
                 other = get('ed25519b' if name != 'ed25519b' else 'p256')
                 stages = [x for x in case.get('stage', '').split('+') if x]
-                for i, st in enumerate(x for x in stages if x in STAGES):
+                for i, st in enumerate(x for x in stages if x in STAGES + STAGES2):
                     out2(lambda: grow(ctx, pgpy, key, other, st, T0 + timedelta(days=1 + i)))
                 secrets = secrets_of(key)
                 bad = direct_failures(key, key.pubkey, secrets)
